@@ -10,7 +10,8 @@ RULE = ("DRT <sid> <schema> <def> <value> <expected> <hexA> <hexB> c=<choices>: 
         "Some(2)). It is produced by the generator's mirror of DeriveReframe.reframe_with from the choice list c= (every 5th case all-indefinite with 8-byte "
         "heads, every 5th all-indefinite with minimal heads, the rest random); the model side recomputes it from c= with the extracted Coq function and both "
         "sides echo the bytes (R<hex>:<outcome>), so the mirror is checked against the Coq definition byte for byte. hexB is a freer re-framing (also wide "
-        "integer leaves and indefinite / wide Vec headers: outside the theorem, correspondence only). O=: every decode yields the value with skipped "
+        "integer leaves — these are covered by theorem C09_roundtrip_reframed_leaves, Props/C09.v: every leaf any well-formed item to which the built-in-type "
+        "specification of C04 assigns the value — and indefinite / wide Vec headers and wide nz-codec values: outside the theorems, correspondence only). O=: every decode yields the value with skipped "
         "fields defaulted and consumes exactly the input; fields of borrowing types point into the input buffer, #[b] Cow fields are Borrowed, "
         "#[n] Cow fields Owned. DDEC <sid> <schema> <def> <hex> [!class]: decoder-only cases — byte-level mutations and truncations of valid "
         "encodings, changed or removed tags at every level, unknown top-level variants, and every non-index_only enum's encoding with its 2-array turned "
